@@ -95,6 +95,12 @@ type state struct {
 
 var st = &state{hashes: map[uint64]struct{}{}, viol: map[string]violationRec{}}
 
+// TraceCurrent makes every case be written to $VERIF_WORK/cur.json before it
+// runs, so a case that kills the process (fatal error, OOM) can be identified.
+var TraceCurrent = false
+
+var collectMode = os.Getenv("VERIF_COLLECT") != ""
+
 // Env
 var (
 	Property   string
@@ -236,6 +242,19 @@ func record(sub string, c interface{}, v Verdict) (fail bool, replay string) {
 			st.out.KnownHits[id]++
 			return false, ""
 		}
+		if collectMode {
+			// development aid only (never set by registered commands): list every
+			// distinct violation signature instead of stopping at the first
+			k := "VIOL " + v.Sig
+			if v.Sig == "" {
+				k = "VIOL (nosig) " + sub
+			}
+			if st.out.Labels[k] == 0 {
+				st.out.Notes = append(st.out.Notes, k+" :: "+v.Msg)
+			}
+			st.out.Labels[k]++
+			return false, ""
+		}
 		dir := filepath.Join(VerifDir, "replays", Property)
 		_ = os.MkdirAll(dir, 0o755)
 		p := filepath.Join(dir, fmt.Sprintf("viol-%s-s%d-%d.json", sub, Seed, Shard))
@@ -283,6 +302,11 @@ func NewSub[C any](name string, quick, thorough int, gen func(*rapid.T) C, check
 	s := Sub{Name: name, Quick: quick, Thorough: thorough}
 	s.run = func(t *rapid.T) {
 		c := gen(t)
+		if TraceCurrent {
+			if b, err := json.Marshal(map[string]interface{}{"property": Property, "sub": name, "case": c}); err == nil {
+				_ = os.WriteFile(filepath.Join(WorkDir(), "cur.json"), b, 0o644)
+			}
+		}
 		v := safeCheck(check, c)
 		if fail, p := record(name, c, v); fail {
 			t.Fatalf("VIOLATES %s/%s: %s\nreplay=%s", Property, name, v.Msg, p)
